@@ -63,6 +63,16 @@ CHECKS = {
          "removed columns are never key columns; with duplicate keys either duplicate may survive in either output",
          "TLA+ spec Ingest.tla; TLC-enumerated scenarios replayed into pkg/sorter (both outputs)",
          "DESIGN.md 5/C19"),
+ "C05": ("merge", "model_checking",
+         "Merge.tla is the oracle: a cell-wise rule in which 'absent' is a value (row/column removal and addition are changes of cells), "
+         "conflict = two different changes of one cell; TLC checks the statement's laws (merge(base;X,base)=X, merge(base;X,X)=X, order "
+         "independence) over every ordered pair of branch versions (row ops x column ops add/remove/reorder/rename x key column at position "
+         "1..3: 16,928 quick / ~10^6 thorough pairs) and exports expected result, conflicting keys and the keys where the statement allows two "
+         "outcomes; every pair is realised as real tables (a sample cluster-scaled to multi-block tables), merged by the real pkg/merge as "
+         "`wrgl merge` drives it (rows path and the commit path storing the merged table) and result / conflicts / columns are compared.",
+         "the merge UI is not driven (conflicts are dropped and the rest judged); N=2 branches in the exhaustive universe",
+         "TLA+ spec Merge.tla (oracle + laws, TLC); TLC-enumerated branch pairs replayed into pkg/merge",
+         "DESIGN.md 5/C05"),
  "C06": ("wire", "model_checking",
          "Wire.tla IS the on-disk / wire format: encoders and total decoders for string lists, uint lists, fields, times, commits, tables, "
          "blocks, block indices, profiles and the packfile header as TLA+ operators over run-length bytes; TLC checks Fits(v) => Dec(Enc(v)) = v, "
